@@ -227,6 +227,8 @@ impl Baton {
 }
 
 fn violate(clause: &str, detail: String) {
+    // A violation message may quote garbage read from freed memory.
+    let detail = String::from_utf8_lossy(detail.as_bytes()).into_owned();
     with_run(|r| {
         r.violations.push(Violation { clause: clause.to_string(), detail });
         r.abort = true;
@@ -250,7 +252,11 @@ impl Drop for SlotBox {
             let mut it = slots.into_iter().flatten();
             while let Some(s) = it.next() {
                 let zone = s.zone;
+                let counted = s.val.has_handle();
                 drop(s);
+                if !counted {
+                    continue;
+                }
                 NativeEnv.handles(zone, -1);
                 check_memory("dropping a thread's values");
                 if aborting() {
@@ -860,7 +866,11 @@ fn run_case(
     let mut it = rest.into_iter();
     while let Some(s) = it.next() {
         let zone = s.zone;
+        let counted = s.val.has_handle();
         drop(s);
+        if !counted {
+            continue;
+        }
         env.handles(zone, -1);
         check_memory("draining channels");
         if aborting() {
@@ -1137,7 +1147,7 @@ fn op_key(k: &str) -> &'static str {
     m!(
         "new", "clone", "drop", "move", "eq", "query", "into_zoned", "zoned_add",
         "zoned_with_tz", "extract_tz", "to_ambiguous", "resolve", "send", "recv",
-        "swap_shared", "crash", "db_get", "db_reset", "db_advance", "db_touch", "zoned_make", "zoned_mutate", "zoned_compare", "zoned_pair",
+        "swap_shared", "crash", "make_derived", "use_derived", "db_get", "db_reset", "db_advance", "db_touch", "zoned_make", "zoned_mutate", "zoned_compare", "zoned_pair",
         "zoned_sweep", "zoned_span_rel", "tz_make", "amb_op"
     )
 }
